@@ -37,6 +37,50 @@ pub fn run(cfg: &RunCfg, agg: &Mutex<Agg>) {
         let (k, r) = corners[i as usize % corners.len()];
         really_works(&mut Rng::new(i ^ cfg.seed), k, r, out, cfg.thorough);
     });
+    // a supported configuration reached by reset or by new(.., Some(work))
+    // from any other one works like one reached by new
+    run_cases(agg, cfg, "reached-by-reset", crate::count(cfg, 1500, 40_000), |cs, out| {
+        reached_by_reset(&mut Rng::new(cs), out);
+    });
+}
+
+fn reached_by_reset(rng: &mut Rng, out: &mut CaseOut) {
+    let rate = gen::rate(rng);
+    let class = match rng.below(10) {
+        0..=3 => gen::Class::Tiny,
+        4..=6 => gen::Class::Small,
+        7..=8 => gen::Class::Edge,
+        _ => gen::Class::Medium,
+    };
+    let (k, r) = gen::config(rng, class, rate);
+    let size = if k.max(r) > 256 { *rng.pick(&[2usize, 64, 66, 128, 130]) } else { 2 * rng.range(1, 300) };
+    let api = gen::api(rng, rate, k, r);
+    let desc = format!("k={k} r={r} rate={} size={size} api={}", rate.name(), api.name());
+    let res = guarded(|| -> Result<(), String> {
+        let originals = gen::originals(rng, k, size);
+        let mut enc = crate::mon_c01::preused_encoder(rng, api, rate, k, r, size).map_err(|e| format!("encoder brought to the configuration: {e}"))?;
+        for o in &originals {
+            enc.add(o).map_err(|e| format!("add_original_shard: {e}"))?;
+        }
+        let recovery = enc.encode_obs(&[]).map_err(|e| format!("encode: {e}"))?.iter;
+        let (oi, ri, _) = gen::received_set(rng, k, r);
+        let order = gen::add_order(rng, &oi, &ri, true);
+        let mut dec = crate::mon_c01::preused_decoder(rng, api, rate, k, r, size).map_err(|e| format!("decoder brought to the configuration: {e}"))?;
+        let obs = codec::decode_round(dec.as_mut(), &order, &originals, &recovery, &[]).map_err(|e| format!("decode: {e}"))?;
+        if obs.iter != expected(&originals, &oi) {
+            return Err("restored shards are wrong".into());
+        }
+        Ok(())
+    });
+    out.evals += 1;
+    match res {
+        Ok(Ok(())) => {}
+        Ok(Err(m)) => out.violate("C08:reached-by-reset-does-not-work", format!("{desc}: {m}")),
+        Err(p) => out.violate(format!("C08:reached-by-reset:{}", crate::util::panic_sig(&p)), format!("{desc}: {p}")),
+    }
+    out.tag(format!("reached-by-reset:{}", rate.name()));
+    out.nontrivial_key(&format!("rbr/{desc}/{}", rng.next_u64()));
+    out.sample = Some(jobj(&[("reached_by_reset", jstr(&desc))]));
 }
 
 fn corner_list() -> Vec<(usize, usize)> {
